@@ -3,40 +3,70 @@
 COMMON_ASSUMPTIONS = [
     "only executions produced by this run are judged (runtime monitoring): held means held on these cases",
     "platform configuration: g++ 12 -std=c++20 -O1, LP64, signed char, sizeof(wchar_t)==4, glibc",
-    "reference models in /verif/rt/ref_*.h are written from the property statements and are trusted",
-    "ASan/UBSan see only out-of-bounds accesses that leave an object or heap block (exact-size placement is used to narrow this)",
+    "reference models in /verif/rt/ref_*.h and the harness are written from the property statements and are trusted",
+    "ASan/UBSan see only out-of-bounds accesses that leave an object or heap block (exact-size placement of inputs and objects is used to narrow this)",
 ]
-
-ASAN = {"build": "asan"}
-
-PROPS = {}
-
-# properties without a registered check (kept current; see DESIGN.md)
-NOT_APPLICABLE = {}
-_PENDING = "check not registered yet in this revision of /verif (harness under construction; nothing is claimed)"
-for _p in ["C01","C02","C03","C04","C05","C06","C07","C09","C10","C11","C12","C13","C14","C15","C16","C17","C18","C19","C20"]:
-    NOT_APPLICABLE[_p] = _PENDING
 
 LEVEL_NOTE = ("trusted base: g++ 12 + libasan/libubsan (libtsan for C20), the harness-side reference model and generators under /verif/rt and /verif/harness, "
               "the python driver; assumes the platform configuration compiled here (LP64, 4-byte wchar_t, signed char, C++20, glibc)")
 
-PROPS["C08"] = {
-    "title": "slicing returns the clamped byte range",
-    "harness": "slice",
-    "runs": [ASAN],
-    "level": "exploration",
-    "level_text": ("runtime monitoring: the real substr/left/right/trim/before_*/after_* run under ASan+UBSan on ~1.7M (quick) generated calls "
-                   "and are compared call by call with a naive reference slice; the replaced operator new watches every allocation size. "
-                   "Decides the property on the executions produced (exhaustive for the small-alphabet separator sweep, boundary-directed + random elsewhere)"),
-    "level_note": LEVEL_NOTE,
-    "technique": "differential runtime monitoring against a reference model under ASan+UBSan, allocation-size monitor",
-    "rule": ("directed grid (every size class x boundary starts/counts incl. LONG_MIN/LONG_MAX/SIZE_MAX-k), every n for left/right, "
-             "exhaustive small-alphabet sweep of subject x separator x case mode for before/after, seeded random cases; "
-             "a case is distinct by (operation family, subject bytes, parameters); trivial = none (every counted case calls the library and compares with the reference)"),
-    "assumptions": COMMON_ASSUMPTIONS + [
-        "oversized allocation = any single request larger than size()+1 bytes during the call (measured by the replaced operator new)",
-        "char / const char* separator forms are compared only for separators representable in that form",
-    ],
-    "exhaustive": {"quick": "before/after: all subjects len<=4 x separators len<=3 over {a,b,A,NUL,0x80} x 2 case modes",
-                   "thorough": "before/after: all subjects len<=6 x separators len<=3 over {a,b,A,NUL,0x80} x 2 case modes"},
-}
+ASAN = {"build": "asan"}
+
+PROPS = {}
+NOT_APPLICABLE = {}
+
+
+def P(pid, title, harness, level_text, technique, rule, assumptions=(), runs=None, exhaustive=None,
+      level="exploration", **kw):
+    d = {
+        "title": title, "harness": harness, "runs": runs or [ASAN], "level": level,
+        "level_text": level_text, "level_note": LEVEL_NOTE, "technique": technique, "rule": rule,
+        "assumptions": COMMON_ASSUMPTIONS + list(assumptions), "exhaustive": exhaustive or {},
+    }
+    d.update(kw)
+    PROPS[pid] = d
+
+
+P("C07", "searching returns exactly the first/last occurrence", "search",
+  level_text=("runtime monitoring: every find/find_last/contains/starts_with/ends_with overload runs under ASan+UBSan and is compared call by call "
+              "with a naive scan; exhaustive over a 5-letter alphabet {a,b,A,NUL,0x80} up to the stated lengths x every start/limit x both case modes, "
+              "plus seeded random longer cases (self-overlapping needles, needle straddling the end, hits cut by the limit)"),
+  technique="differential runtime monitoring against a naive reference scan under ASan+UBSan (exhaustive small-alphabet sweep + random)",
+  rule=("a case is one (haystack, needle, case mode) triple, each evaluated at every start/limit position and through every needle form; "
+        "distinct by the bytes of haystack and needle and the case mode; evaluations count individual library calls; all cases call the library (none trivial)"),
+  assumptions=["(pointer,length) needles are given exactly `length` readable bytes (no terminator); const char* forms only for needles without NUL",
+               "a needle length larger than the needle actually has (e.g. SIZE_MAX) is outside the property"],
+  exhaustive={"quick": "all haystacks len<=5 x needles len<=3 over {a,b,A,NUL,0x80} x positions 0..len+2,SIZE_MAX-1,SIZE_MAX x {cs,ci}",
+              "thorough": "all haystacks len<=7 x needles len<=3 over {a,b,A,NUL,0x80} x positions 0..len+2,SIZE_MAX-1,SIZE_MAX x {cs,ci}"},
+  dbits={"quick": 23, "thorough": 26})
+
+P("C08", "slicing returns the clamped byte range", "slice",
+  level_text=("runtime monitoring: the real substr/left/right/trim/before_*/after_* run under ASan+UBSan on generated calls "
+              "and are compared call by call with a naive reference slice; the replaced operator new watches every allocation size. "
+              "Decides the property on the executions produced (exhaustive for the small-alphabet separator sweep, boundary-directed + random elsewhere)"),
+  technique="differential runtime monitoring against a reference model under ASan+UBSan, allocation-size monitor",
+  rule=("directed grid (every size class x boundary starts/counts incl. LONG_MIN/LONG_MAX/SIZE_MAX-k), every n for left/right, "
+        "exhaustive small-alphabet sweep of subject x separator x case mode for before/after, seeded random cases; "
+        "a case is distinct by (operation family, subject bytes, parameters); trivial = none (every counted case calls the library and compares with the reference)"),
+  assumptions=["oversized allocation = any single request larger than size()+1 bytes during the call (measured by the replaced operator new)",
+               "char / const char* separator forms are compared only for separators representable in that form"],
+  exhaustive={"quick": "before/after: all subjects len<=4 x separators len<=3 over {a,b,A,NUL,0x80} x 2 case modes",
+              "thorough": "before/after: all subjects len<=6 x separators len<=3 over {a,b,A,NUL,0x80} x 2 case modes"})
+
+P("C09", "split, tokenize and replace partition the text exactly; join inverts split", "split",
+  level_text=("runtime monitoring: split/tokenize/replace (every overload) run under ASan+UBSan and each result is compared with a naive reference "
+              "partition; monitors add the max+1 piece bound, join(pieces, sep)==original, the replace length formula, a poison differential that exposes "
+              "result bytes never written when the two scans of replace disagree, a per-call allocation cap (runaway allocation) and a CPU-time watchdog (termination)"),
+  technique="differential runtime monitoring against a reference partition under ASan+UBSan, poison-fill differential, allocation cap + CPU watchdog",
+  rule=("a case is one (operation, subject, separator/pattern[, replacement], max_splits, case mode) tuple, evaluated through every overload form that can represent it; "
+        "distinct by those bytes/values; evaluations count library calls; no case is trivial (every one calls the library and is compared)"),
+  assumptions=["results that are not well-formed UTF-8 (only reachable from from_validated subjects) may be rejected with ST::unicode_error by replace and by the validating const char* overloads; accepted there and nowhere else",
+               "the char overload of split is exercised for 0x01..0x7F only (documented contract assertion otherwise)"],
+  exhaustive={"quick": "split: subjects len<=5 x separators len<=2 over {a,b,A,',',';',NUL} x max in {0,1,2,SIZE_MAX} x {cs,ci}; replace: subjects len<=4 x patterns len<=2 x 9 replacements x {cs,ci}",
+              "thorough": "split: subjects len<=7 x separators len<=3 over {a,b,A,',',';',NUL} x max in {0,1,2,SIZE_MAX} x {cs,ci}; replace: subjects len<=6 x patterns len<=2 x 9 replacements x {cs,ci}"},
+  dbits={"quick": 24, "thorough": 27})
+
+_PENDING = "check not registered yet in this revision of /verif (harness under construction; nothing is claimed)"
+for _p in ["C%02d" % i for i in range(1, 21)]:
+    if _p not in PROPS:
+        NOT_APPLICABLE[_p] = _PENDING
